@@ -7,10 +7,12 @@ attributed.  Oracles: whole lines, one contiguous batch per successful writer, n
 final state equals running the successful commands one at a time in one of the two orders (twin stores, same RNG script).
 """
 import json, os
-from . import cmdrun, strace, crash, sched, gen, fndiff
+from . import cmdrun, strace, crash, sched, gen, fndiff, common
+
+common_canon = common.canon
 
 
-def marked(r, v, i, kinds=None):
+def marked(r, v, i, kinds=None, shared=None):
     """(req, agent, label) whose writes are attributable to process i"""
     tag = "P%d" % i
     ag = "ag-" + tag
@@ -21,14 +23,21 @@ def marked(r, v, i, kinds=None):
         pool += [("set", 18), ("claim_id", 10), ("set+state", 10)]
     if closed:
         pool += [("reopen", 10)]
+    open_ = [t for t in v.tasks if v.by_id[t]["st"] not in ("done", "canceled")]
+    if open_:
+        pool += [("close", 0)]             # only on request: finish a task (changes what prune would take)
     if len(v.tasks) >= 2:
         pool += [("sequence", 8)]
     if v.epics:
         pool += [("new_in_epic", 6)]
         if v.tasks:
             pool += [("set_epic", 6)]
+    if len(v.tasks) >= 2:
+        pool += [("seq_opposed", 0)]          # only on request: A and B ask for the two directions of one edge
     if kinds:
-        pool = [(k, w) for k, w in pool if k in kinds] or pool
+        pool = [(k, w if w else 10) for k, w in pool if k in kinds] or [(k, w) for k, w in pool if w]
+    else:
+        pool = [(k, w) for k, w in pool if w]
     k = r.weighted(pool)
     J = lambda d: {"piped": True, "body_stdin": False, "flags": {}, "json": d}
     if k == "new": return dict(cmd="new_task", **J({"title": tag + " new", "body": "b"})), ag, k
@@ -42,6 +51,17 @@ def marked(r, v, i, kinds=None):
         e = r.pick(empty) if empty and r.p(80) else r.pick(v.epics)
         if k == "new_in_epic": return dict(cmd="new_task", **J({"title": tag + " new", "epic": e})), ag, k
         return dict(cmd="set", id=r.pick(v.tasks), **J({"title": tag + " retitled", "epic": e})), ag, k
+    if k == "seq_opposed":
+        shared = shared if shared is not None else {}
+        if "pair" not in shared:
+            a = r.pick(v.tasks); b = r.pick([t for t in v.tasks if t != a])
+            shared["pair"] = (a, b)
+        a, b = shared["pair"]
+        return {"cmd": "sequence", "args": [a, b] if i == 0 else [b, a]}, ag, k
+    if k == "close":
+        t = r.pick(open_)
+        # done needs a claimant history for some states; canceled is reachable from every open state
+        return dict(cmd="set", id=t, **J({"title": tag + " closed", "state": r.pick(["canceled", "done"]) if v.by_id[t]["st"] in ("doing",) else "canceled"})), ag, k
     if k == "reopen": return dict(cmd="set", id=r.pick(closed), **J({"title": tag + " reopened", "state": "todo"})), ag, k
     if k == "claim_id": return {"cmd": "claim", "id": r.pick(todo or v.tasks)}, ag, k
     if k == "claim_oldest": return {"cmd": "claim_oldest", "epic": ""}, ag, k
@@ -75,16 +95,25 @@ def lines_problem(data):
     return None
 
 
+def timeless_reply(req, res):
+    """what a successful command printed, without clock readings (None for a failed one)"""
+    if res["exit"] != 0:
+        return None
+    rep = cmdrun.canon_reply(req, res["stdout"])
+    return {k: v for k, v in rep.items() if k not in ("created_at", "claimed_at")}
+
+
 def serial_twin(base, order, cmds):
     t = crash.clone(base)
     try:
-        exits = []
+        exits, replies = [], {}
         for i in order:
             req, ag, env = cmds[i]
             rr = t.exec(cmdrun.argv_of(req, ag), cmdrun.stdin_of(req), env=env)
             exits.append(rr["exit"])
+            replies[i] = timeless_reply(req, rr)
         g = t.graph()
-        return exits, (crash.timeless(g["graph"]) if "graph" in g else None)
+        return exits, (crash.timeless(g["graph"]) if "graph" in g else None), replies
     finally:
         t.close()
 
@@ -135,13 +164,24 @@ def judge(ctx, prop, base, c, cmds, results, trace, step, post_oracle=None):
     orders = [ran, list(reversed(ran))] if len(ran) == 2 else [ran]
     details = []
     matches = False
+    got_replies = {i: timeless_reply(cmds[i][0], results[i]) for i in ran}
+    reply_mismatch = None
     for order in orders:
-        exits, tw = serial_twin(base, order, cmds)
+        exits, tw, replies = serial_twin(base, order, cmds)
         pattern = {i: e == 0 for i, e in zip(order, exits)}
         details.append((order, exits))
         if tw == got and pattern == want_pattern:
-            matches = True
-            break
+            if common_canon(replies) == common_canon(got_replies):
+                matches = True
+                reply_mismatch = None
+                break
+            reply_mismatch = (order, replies)
+    if not matches and reply_mismatch:
+        order, replies = reply_mismatch
+        bad = [i for i in ran if common_canon(replies.get(i)) != common_canon(got_replies.get(i))][0]
+        ctx.violation("%s reply differs from the serial run with the same outcome (%s, with %s concurrent)" % (prop, cmds[bad][0]["cmd"], cmds[1 - bad][0]["cmd"]),
+                      "P%d printed %s; run one at a time in the order %s — same exits, same final state — it prints %s" % (bad, json.dumps(got_replies[bad])[:300], order, json.dumps(replies[bad])[:300]),
+                      {"trace": trace + [step]}); return True
     if not matches:
         ctx.violation("%s concurrent outcome matches no serial order of the commands that ran (%s ∥ %s)" % (prop, cmds[0][0]["cmd"], cmds[1][0]["cmd"]),
                       "exits %s; serial attempts (order, exits) %s; no order gives this success/failure pattern with this final state" % ([r_["exit"] for r_ in results], details),
@@ -149,11 +189,86 @@ def judge(ctx, prop, base, c, cmds, results, trace, step, post_oracle=None):
     return False
 
 
-def explore(ctx, prop, r, kindsA=None, kindsB=None, points="all", b_modes=("complete", "hold"), max_points=4, state_cmds=10, big=0, post_oracle=None, weights=None):
-    base, v, trace = crash.build_state(ctx, r, state_cmds + r.n(8), big=big, **({"weights": weights} if weights else {}))
+def one_schedule(ctx, prop, base, cmds, point, mode, trace, prog, post_oracle=None, label=("A", "B"), env_extra=None):
+    """A is parked right after `point` = (syscall, n-th occurrence on the store's files); B runs to completion (mode "complete") or takes the
+    lock and is parked itself ("hold"); A resumes; B resumes.  Returns "violation", "skipped" or "ok"."""
+    (reqA, agA, envA), (reqB, agB, envB) = cmds
+    envA = dict(envA, **(env_extra or {})); envB = dict(envB, **(env_extra or {}))
+    argvA, stdinA = cmdrun.argv_of(reqA, agA), cmdrun.stdin_of(reqA)
+    argvB, stdinB = cmdrun.argv_of(reqB, agB), cmdrun.stdin_of(reqB)
+    c = crash.clone(base)
+    pkA = pkB = None
     try:
-        reqA, agA, labA = marked(r, v, 0, kindsA)
-        reqB, agB, labB = marked(r, v, 1, kindsB)
+        pkA = sched.Parked(c, argvA, stdinA, tuple(point), env=envA)
+        if not pkA.parked:
+            pkA.wait(5); pkA = None
+            return "skipped"
+        atA = (strace.summarize(pkA.steps_at_park) or ["-"])[-1]
+        step = {"A": argvA, "A_stdin": (stdinA or b"").decode("utf-8", "replace")[:2000], "B": argvB, "B_stdin": (stdinB or b"").decode("utf-8", "replace")[:2000],
+                "schedule": "A parked after its call %d (%s); B %s; A resumes%s" % (len(pkA.steps_at_park), atA, "runs to completion" if mode == "complete" else "takes the lock and is parked",
+                                                                                  "" if mode == "complete" else "; B resumes"),
+                "A_program": prog,
+                # everything needed to run this schedule again: ./check <prop> --replay <file>
+                "explore2": {"reqA": reqA, "agentA": agA, "envA": envA, "reqB": reqB, "agentB": agB, "envB": envB, "park_point": list(point), "mode": mode}}
+        if mode == "complete":
+            rb = c.exec(argvB, stdinB, env=envB, timeout=10)
+            if rb.get("timeout"):
+                ctx.violation("%s command blocks waiting for the lock (%s)" % (prop, reqB["cmd"]), "B did not return within 10 s while A was parked", {"trace": trace + [step]}); return "violation"
+            ra = pkA.resume(); pkA = None
+        else:
+            pkB = sched.Parked(c, argvB, stdinB, ("flock", 1), env=envB)
+            ra = pkA.resume(); pkA = None
+            rb = pkB.resume() if pkB.parked else pkB.wait(10)
+            pkB = None
+        if ra.get("tracer_error") or rb.get("tracer_error"):
+            ctx.count(1, key=("skipped: tracer error",)); return "skipped"
+        ctx.count(1, key=(label[0], label[1], atA, mode))
+        if judge(ctx, prop, base, c, [(reqA, agA, envA), (reqB, agB, envB)], [ra, rb], trace, step, post_oracle):
+            return "violation"
+        return "ok"
+    finally:
+        for pk in (pkA, pkB):
+            if pk is not None:
+                pk.kill()
+        c.close()
+
+
+def is_schedule_replay(doc):
+    t = (doc.get("replay") or {}).get("trace") or []
+    return bool(t) and isinstance(t[-1], dict) and "explore2" in t[-1]
+
+
+def replay(ctx, doc, post_oracle=None):
+    """re-run a recorded two-process schedule against the current tree: rebuild the pre-state from the recorded commands (same scripted RNG),
+    park A at the recorded point, run B, resume, judge with the same oracles.  Exit 1 if the violation shows again."""
+    trace = doc["replay"]["trace"]
+    x = trace[-1]["explore2"]
+    legacy = any("legacy" in str(s_.get("store", "")) for s_ in trace)
+    base = cmdrun.Store(ctx.ergo_verif, ctx.go, legacy=legacy)
+    try:
+        for st_ in trace[:-1]:
+            if "argv" not in st_:
+                continue
+            if st_.get("bulk"):
+                doc_ = {"title": "bulk", "tasks": [{"title": "bulk %d" % i, "body": ("filler %d " % i) * 60} for i in range(st_["bulk"])]}
+                base.exec(st_["argv"], json.dumps(doc_).encode(), env=st_.get("env"))
+                continue
+            base.exec(st_["argv"], None if st_.get("stdin") is None else st_["stdin"].encode(), env=st_.get("env"))
+        cmds = [(x["reqA"], x["agentA"], x["envA"]), (x["reqB"], x["agentB"], x["envB"])]
+        before = len(ctx.violations) if hasattr(ctx, "violations") else 0
+        out = one_schedule(ctx, doc.get("property", "?"), base, cmds, x["park_point"], x["mode"], trace[:-1], trace[-1].get("A_program"), post_oracle)
+        print("schedule:", trace[-1]["schedule"]); print("outcome:", out)
+        return 1 if out == "violation" else 0
+    finally:
+        base.close()
+
+
+def explore(ctx, prop, r, kindsA=None, kindsB=None, points="all", b_modes=("complete", "hold"), max_points=4, state_cmds=10, big=0, post_oracle=None, weights=None, legacy=False, env_extra=None):
+    base, v, trace = crash.build_state(ctx, r, state_cmds + r.n(8), big=big, legacy=legacy, **({"weights": weights} if weights else {}))
+    try:
+        shared = {}
+        reqA, agA, labA = marked(r, v, 0, kindsA, shared)
+        reqB, agB, labB = marked(r, v, 1, kindsB, shared)
         cmds = [(reqA, agA, {"VERIF_RAND": str(r.next() % (1 << 40))}), (reqB, agB, {"VERIF_RAND": str(r.next() % (1 << 40))})]
         argvA, stdinA = cmdrun.argv_of(reqA, agA), cmdrun.stdin_of(reqA)
         argvB, stdinB = cmdrun.argv_of(reqB, agB), cmdrun.stdin_of(reqB)
@@ -180,37 +295,8 @@ def explore(ctx, prop, r, kindsA=None, kindsB=None, points="all", b_modes=("comp
             idx = sorted(must)
         for k in idx:
             for mode in b_modes:
-                c = crash.clone(base)
-                pkA = pkB = None
-                try:
-                    pkA = sched.Parked(c, argvA, stdinA, pts[k - 1], env=cmds[0][2])
-                    if not pkA.parked:
-                        pkA.wait(5); pkA = None
-                        continue
-                    atA = (strace.summarize(pkA.steps_at_park) or ["-"])[-1]
-                    step = {"A": argvA, "A_stdin": (stdinA or b"").decode("utf-8", "replace")[:200], "B": argvB, "B_stdin": (stdinB or b"").decode("utf-8", "replace")[:200],
-                            "schedule": "A parked after call %d/%d (%s); B %s; A resumes%s" % (k, len(pts), strace.summarize(pkA.steps_at_park)[-1:], "runs to completion" if mode == "complete" else "takes the lock and is parked",
-                                                                                                    "" if mode == "complete" else "; B resumes"),
-                            "A_program": prog}
-                    if mode == "complete":
-                        rb = c.exec(argvB, stdinB, env=cmds[1][2], timeout=10)
-                        if rb.get("timeout"):
-                            ctx.violation("%s command blocks waiting for the lock (%s)" % (prop, reqB["cmd"]), "B did not return within 10 s while A was parked", {"trace": trace + [step]}); return
-                        ra = pkA.resume(); pkA = None
-                    else:
-                        pkB = sched.Parked(c, argvB, stdinB, ("flock", 1), env=cmds[1][2])
-                        ra = pkA.resume(); pkA = None
-                        rb = pkB.resume() if pkB.parked else pkB.wait(10)
-                        pkB = None
-                    if ra.get("tracer_error") or rb.get("tracer_error"):
-                        ctx.count(1, key=("skipped: tracer error",)); continue
-                    ctx.count(1, key=(labA, labB, atA, mode))
-                    if judge(ctx, prop, base, c, cmds, [ra, rb], trace, step, post_oracle):
-                        return
-                finally:
-                    for pk in (pkA, pkB):
-                        if pk is not None:
-                            pk.kill()
-                    c.close()
+                out = one_schedule(ctx, prop, base, cmds, pts[k - 1], mode, trace, prog, post_oracle, label=(labA, labB), env_extra=env_extra)
+                if out == "violation":
+                    return
     finally:
         base.close()
